@@ -87,8 +87,9 @@ def binArr (st : St F) (op : Op) (la : Nat) (right : Val F) : Res F (Val F) :=
         let reps := ops.toInt n
         if ops.eq (ops.ofInt reps) n = false then .err (.panic .badRepetition) st
         else if reps < 0 then .err (.panic .badRepetition) st
+        else if ls.length ≠ 0 && reps > (67108864 : Int) / ls.length then .err (.panic .badRepetition) st  -- maxRepeatedLen
         else
-          match replicateCopies reps.toNat (auxFuel st) (.arr la) st with
+          match replicateCopies (if ls.length = 0 then 0 else reps.toNat) (auxFuel st) (.arr la) st with
           | some (es, st') => let (a, st'') := alloc st' (.arr es); .ok (.arr a) st''
           | Option.none => .err .timeout st
       | _ => .err (.goPanic "array *: numVal assertion") st
